@@ -55,7 +55,7 @@ _p("C03", "Whatever the builder serialises, the parser reads back identically", 
 
 _p("C04", "Integrity: sealed messages verify, anything else does not", "fault_enumeration",
    "runtime monitor with fault enumeration: for each sealed message every single-bit flip and byte substitutions in the covered range plus near-miss alternative credentials, judged with an independent HMAC-SHA1/SHA256/MD5 implementation",
-   "base messages are builder-sealed (compared byte-for-byte with the reference HMAC) and reference-sealed (SHA-1, SHA-256 truncated to 16/20/24/28/32 bytes, both attributes in both orders, with/without FINGERPRINT, 1..=6 ordinary attributes, short- and long-term credentials). For each: validation under K, under ~10..30 alternative credentials whose HMAC key differs (HMAC-equivalent keys such as a trailing NUL are filtered), every single-bit flip in [0, end of the validated attribute), all 255 substitutions at the structural bytes and sampled substitutions everywhere. Plus generated messages with wrong / partly wrong / missing integrity, and a few messages near 64 KiB. distinct = distinct base messages.",
+   "base messages are builder-sealed (compared byte-for-byte with the reference HMAC) and reference-sealed (SHA-1, SHA-256 truncated to 16/20/24/28/32 bytes, both attributes in both orders, with/without FINGERPRINT, 1..=6 ordinary attributes, short- and long-term credentials). For each: validation under K, under ~10..30 alternative credentials whose HMAC key differs (HMAC-equivalent keys such as a trailing NUL are filtered), every single-bit flip in [0, end of the last exposed integrity attribute), all 255 substitutions at the structural bytes and sampled substitutions everywhere. Plus generated messages with wrong / partly wrong / missing integrity, and a few messages near 64 KiB. distinct = distinct base messages.",
    "Exhaustive single-bit fault enumeration over every generated sealed message (the tamper-evidence claim) plus differential checking of the HMAC input and key derivation against an independent implementation.",
    "trusted: harness SHA-1/SHA-256/MD5/HMAC (self-tested against FIPS/RFC vectors); cryptographic strength of HMAC is assumed, not tested",
    ["multi-byte forgeries and timing side channels are out of reach"])
@@ -77,7 +77,7 @@ _p("C06", "Retransmission timing follows the configured RFC 8489 schedule exactl
 
 _p("C07", "Responses to authenticated requests are accepted only with valid integrity", "exploration",
    "runtime monitor: the delivery decision of every response is predicted by an independent integrity validator inside the reference agent model; timing and later completion after a drop checked by the same model",
-   _AGENT_RULE + " C07 emphasis: authentication alphabet (sealed/unsealed requests, 8 response kinds, credentials set/unset/changed mid-transaction) enumerated to the depth bound with remote credentials initially unset and set; forged responses injected at every point of the schedule.",
+   _AGENT_RULE + " C07 emphasis: authentication alphabet (sealed/unsealed requests, 8 response kinds, credentials set/unset/changed mid-transaction) enumerated to the depth bound with remote credentials initially unset and set; forged responses (incl. integrity attributes of impossible length: MESSAGE-INTEGRITY of 0/16/19/24 bytes, MESSAGE-INTEGRITY-SHA256 of 12/18/36 bytes) injected at every point of the schedule; after every such drop the transaction is followed to its completion and any lifecycle / timing / payload disagreement is reported under C07.",
    "deliver iff not sealed or (remote credentials present and the response validates under them, by the harness's own HMAC); where the integrity attributes of a response are only partly valid either reply is admitted. Unchanged timing after a drop is checked by the C06 arithmetic.",
    "trusted: reference agent model + reference HMAC (both audited offline by tools/agentcheck.py with hashlib/hmac)", agentcheck=True)
 
@@ -101,10 +101,10 @@ _p("C10", "Only authenticated attributes are exposed after an integrity attribut
 
 _p("C11", "Builder ordering rules hold and refused operations leave no trace", "exploration",
    "runtime monitor: every builder operation sequence up to the depth bound checked step by step against a reference model of the rule table, with full state snapshots (build, byte_len, has_attribute over the type universe) before and after each refused call",
-   "all sequences up to length 5 (quick) / 7 (thorough) over {add typed x3, add raw, add duplicate (through both entry points), SHA-1, SHA-256, fingerprint, into_owned, clone} = 10^5 / 10^7 sequences, plus random sequences of 8..=40 operations over 19 typed and 23 raw types (SmallVec spill). After each sequence the serialisation is walked by the reference decoder and validated. distinct = distinct operation sequences.",
+   "all sequences up to length 6 (quick) / 7 (thorough) over {add typed x3, add raw, add raw of the reserved type 0x0000, add duplicate (through both entry points), SHA-1, SHA-256, fingerprint, into_owned, clone} = 2*10^6 / 2*10^7 sequences, plus random sequences of 8..=40 operations over 19 typed and 33 raw types (unknown types, the extremes 0x0000 / 0xffff / 0x7fff / 0x8000 and the neighbours of the sealing types; SmallVec spill). After each sequence the serialisation is walked by the reference decoder and validated. distinct = distinct operation sequences.",
    "Small-scope exhaustive enumeration of operation sequences with a state-equality oracle: a refused operation must leave every observable of the builder unchanged.",
    "trusted: 30-line rule-table model; operations documented to panic (sealing types through add_attribute) are not driven",
-   layers=["miri"], exhaustive_note="all sequences up to the depth bound over the 10-operation alphabet are enumerated; longer ones are sampled")
+   layers=["miri"], exhaustive_note="all sequences up to the depth bound over the 11-operation alphabet are enumerated; longer ones are sampled")
 
 _p("C12", "All serialisation paths produce identical bytes", "exploration",
    "runtime monitor: pairwise byte equality of all serialisation paths into sentinel-filled (dirty) destinations, every too-short destination size",
@@ -114,7 +114,7 @@ _p("C12", "All serialisation paths produce identical bytes", "exploration",
 
 _p("C13", "XOR-MAPPED-ADDRESS returns the address that was put in", "exploration",
    "runtime monitor: XorMappedAddress new/addr/to_raw/from_raw/message trip compared with a 10-line reference transform over boundary patterns, all ports, per-octet walks and sampled addresses",
-   "all 65536 ports x 6 boundary addresses (all-zero, all-one, cookie-equal; IPv4 and IPv6) x rotating ids; every octet position x every value 0..=255 for IPv4 and IPv6 x 3 ids; every single-bit transaction id x boundary addresses through a real message; a strided sweep of 2^20 (quick) / 2^26 (thorough) IPv4 addresses; 2^19 / 10^8 random IPv6 addresses x random ids; IPv6 decoded under a different id must differ, IPv4 must not depend on the id. distinct = distinct (address, port, id) keys (capped).",
+   "all 65536 ports x 6 boundary addresses (all-zero, all-one, cookie-equal; IPv4 and IPv6) x rotating ids; every octet position x every value 0..=255 for IPv4 and IPv6 x 3 ids; every single-bit transaction id x boundary addresses through a real message; every RFC 6890 special-purpose IPv6 prefix (IPv4-mapped, IPv4-compatible, NAT64, 6to4, Teredo, link-local, ULA, multicast, documentation, discard, SIIT) x 14 embedded special IPv4 addresses, and the addresses whose XOR image is one of those; a strided sweep of 2^20 (quick) / 2^26 (thorough) IPv4 addresses; 2^19 / 10^8 random IPv6 addresses x random ids; IPv6 decoded under a different id must differ, IPv4 must not depend on the id. distinct = distinct (address, port, id) keys (capped).",
    "Sampling plus structural walks of a bytewise XOR; the unsampled bulk of 2^144 / 2^240 inputs is covered only by the argument that the transform is bytewise.",
    "trusted: RefAddr::xor in harness/src/refimpl/attrs.rs; socket addresses carry flowinfo/scope 0")
 
